@@ -74,12 +74,14 @@ KNOWN = {
     # from the *last curve evaluation* (a finite-difference or rejected trial
     # point) instead of recomputing sill - var(popt) -> var + nugget != sill by
     # ~1e-8 relative with 'trf', more with 'dogbox' (model and returned dict).
-    "sill_stale_nugget": True,
+    # (fixed in /repo by 4d8c77e: switch off, assertion live)
+    "sill_stale_nugget": False,
     # TPL models, var not fitted: _post_fitting sets len_scale/hurst/len_low of
     # popt without resetting var (var_save) -> model.var drifts from the
     # prescribed value (1e-9..1e-5 relative with 'trf', up to percents with
     # 'dogbox'); the returned dict["var"] is right, so dict != model state.
-    "tpl_stale_var": True,
+    # (fixed in /repo by 4d8c77e: switch off, assertion live)
+    "tpl_stale_var": False,
     # method="dogbox" places iterates exactly on the bounds handed to curve_fit;
     # where the model's bound is open (var>0, len_scale>0, hurst, anis, open
     # custom bounds) the parameter setter inside the curve closure raises.
@@ -101,7 +103,8 @@ KNOWN = {
     "scipy_abs_tolerance": True,
     # weights given as a plain list (documented: "list: weights given per bin")
     # together with directional data raises AttributeError ('list'.size).
-    "weights_list_directional": True,
+    # (fixed in /repo by 4e636b2: switch off, assertion live)
+    "weights_list_directional": False,
 }
 
 EPS = float(np.finfo(float).eps)
@@ -843,6 +846,8 @@ def _read(m, names):
 
 
 def check_fit(case, rec):
+    # "probe": true re-executes a known-finding input with every exclusion off
+    known = {k: False for k in KNOWN} if case.get("probe") else KNOWN
     truth = case["truth"]
     mode, cls, dim = case["mode"], truth["cls"], truth["dim"]
     names = ["var", "len_scale", "nugget"] + _opt_order(cls)
@@ -1041,7 +1046,7 @@ def check_fit(case, rec):
     robust_ok = case["loss"] == "linear" or (
         start_vals is not None and float(np.max(np.abs((_curve(case, start_vals, start_anis, x) - y) / sig))) <= 1.0
     )
-    expect_recovery = reachable and identifiable and smooth_enough and robust_ok and (scale_ok or not KNOWN["scipy_abs_tolerance"])
+    expect_recovery = reachable and identifiable and smooth_enough and robust_ok and (scale_ok or not known["scipy_abs_tolerance"])
     # optimum on a bound of a free parameter (nugget=0, len_low=0, alpha=2, var=sill)?
     at_bound = any(
         (tv[nm] - bnd[nm][0]) <= 1e-9 * _scale(nm, tv) or (bnd[nm][1] - tv[nm]) <= 1e-9 * _scale(nm, tv) for nm in free
@@ -1085,14 +1090,14 @@ def check_fit(case, rec):
             if _hits_open_bound(str(exc)):
                 # a dogbox iterate sits exactly on an open bound of the model
                 vtags["kind"] = "dogbox_open_bound"
-                if KNOWN["dogbox_open_bound"]:
+                if known["dogbox_open_bound"]:
                     rec.exclude("dogbox_open_bound")
                     return
         if isinstance(exc, ValueError) and tpl and str(exc).startswith("var needs to be") and ("var" not in free or case["method"] != "dogbox"):
             # no optimiser iterate puts var itself on/over its bound here: the
             # value is the transient var = var_raw * var_factor (see KNOWN)
             vtags["kind"] = "tpl_var_bounds_transient"
-            if KNOWN["tpl_var_bounds_transient"]:
+            if known["tpl_var_bounds_transient"]:
                 rec.exclude("tpl_var_bounds_transient")
                 return
         raise Violation(f"fit_variogram raised {type(exc).__name__}: {exc}", tags=vtags) from exc
@@ -1105,8 +1110,8 @@ def check_fit(case, rec):
     # regions of the two stale-state findings (see KNOWN)
     stale_var = tpl and stat["var"] != "fit" and any(nm in free for nm in ("len_scale", "hurst", "len_low"))
     stale_nug = plan["sill"] is not None and stat["nugget"] == "derived" and stat["var"] == "fit"
-    skip_var = stale_var and KNOWN["tpl_stale_var"]
-    skip_nug = stale_nug and KNOWN["sill_stale_nugget"]
+    skip_var = stale_var and known["tpl_stale_var"]
+    skip_nug = stale_nug and known["sill_stale_nugget"]
     if skip_var:
         rec.exclude("tpl_stale_var")
     if skip_nug:
@@ -1238,7 +1243,7 @@ def check_fit(case, rec):
         return
     err = float(np.max(np.abs(resid)))
     rec.label("optimum_on_bound" if at_bound else "optimum_interior")
-    if err > tol_c and scale_ok:  # (outside scale_ok only with KNOWN["scipy_abs_tolerance"] off: no absolution)
+    if err > tol_c and scale_ok:  # (outside scale_ok only with known["scipy_abs_tolerance"] off: no absolution)
         if _is_local_optimum(case, names, free, anis_fit, plan, bnd, post, x, y, sig, c1):
             # curve_fit legitimately ended in a secondary optimum of the (weighted,
             # robust) cost: no neighbouring parameter set has a lower oracle cost
